@@ -145,8 +145,17 @@ func PkgOf(fn *ssa.Function) *ssa.Package {
 
 // InScope reports whether fn is source code of the rule scope S (synthetic wrappers excluded).
 func (p *Prog) InScope(fn *ssa.Function) bool {
-	if fn == nil || fn.Synthetic != "" || len(fn.Blocks) == 0 {
+	if fn == nil || len(fn.Blocks) == 0 {
 		return false
+	}
+	if fn.Synthetic != "" {
+		// wrappers and thunks are not source functions; an instantiation of a generic function of the scope is (its body
+		// is the source body at concrete types)
+		if o := fn.Origin(); o == nil || o == fn || len(fn.TypeArgs()) == 0 {
+			return false
+		}
+	} else if fn.TypeParams().Len() > 0 && len(fn.TypeArgs()) == 0 {
+		return false // the uninstantiated body of a generic function: its instances are analysed instead
 	}
 	pk := PkgOf(fn)
 	if pk == nil {
